@@ -115,6 +115,24 @@ def impl_observe(text, tmp, full_reader=False):
     obs["reread_ok"] = ok2
     obs["reread_pyeq"] = bool(ok2 and md2 == md)
     obs["reread_canon"] = bool(ok2 and enc_dict(md2) == enc_dict(md))
+    # the same calls with str instead of Path arguments, and a write / read / write / read sequence on ONE
+    # path that already holds a longer file
+    seq = {}
+    ok_s, md_s = guarded(spikeglx.read_meta_data, str(p))
+    seq["read_str_eq_path"] = bool(ok_s and enc_dict(md_s) == enc_dict(md))
+    s = tmp / "seq.imec0.ap.meta"
+    s.write_bytes(b"stale=1\n" * 3000)
+    spikeglx.write_meta_data(md, str(s))
+    b1 = s.read_bytes()
+    seq["write_str_eq_path"] = b1 == q.read_bytes()
+    ok3, md3 = guarded(spikeglx.read_meta_data, str(s))
+    seq["rewrite_identical"] = seq["final_eq"] = False
+    if ok3:
+        spikeglx.write_meta_data(md3, s)
+        seq["rewrite_identical"] = s.read_bytes() == b1
+        ok4, md4 = guarded(spikeglx.read_meta_data, s)
+        seq["final_eq"] = bool(ok4 and md4 == md3 and enc_dict(md4) == enc_dict(md3))
+    obs["seq"] = seq
     obs["version"] = guarded(spikeglx._get_neuropixel_version_from_meta, md)
     obs["major"] = guarded(spikeglx._get_neuropixel_major_version_from_meta, md)
     obs["type"] = guarded(spikeglx._get_type_from_meta, md)
@@ -122,6 +140,7 @@ def impl_observe(text, tmp, full_reader=False):
     obs["sync"] = guarded(spikeglx._get_sync_trace_indices_from_meta, md)
     obs["fs"] = guarded(spikeglx._get_fs_from_meta, md)
     obs["maxint"] = guarded(spikeglx._get_max_int_from_meta, md)
+    obs["async"] = guarded(spikeglx._get_analog_sync_trace_indices_from_meta, md)
     with warnings.catch_warnings(), np.errstate(all="ignore"):
         warnings.simplefilter("ignore")
         obs["s2v"] = guarded(spikeglx._conversion_sample2v_from_meta, md)
@@ -247,6 +266,10 @@ def enc_impl(obs, model_out):
     out += enc_zopt(mi if ok else None)
     ok, sv = obs["r_s2v"]
     out += [1, len(sv)] if ok else [0]
+    ok, mj = obs["major"]
+    out += [0] if (not ok or mj is None) else [1, {1: 1, 2: 2, 2.4: 3, "NPultra": 4}.get(mj, -9)]
+    ok, a = obs["async"]
+    out += [0] if not ok else [1, len(a), a[0] if len(a) else 0]
     return out, why
 
 
@@ -455,6 +478,7 @@ def gen_probe(rng, big=False):
         gmn = rng.choice(["200", "1", "100", "2.5", "12.5"])
         gma = rng.choice(["1", "10", "0.5", "2"])
         it.update(type="nidq", version=None, nc=mn + ma + xa + dw, nsync=dw, range=Fraction(Decimal(rng_lit)),
+                  analog_sync=list(range(mn + ma, mn + ma + xa)),
                   gains=[Fraction(Decimal(gmn))] * mn + [Fraction(Decimal(gma))] * ma + [Fraction(1)] * xa + [None] * dw)
         L += ["typeThis=nidq", "niAiRangeMax=" + rng_lit, "niMNGain=" + gmn, "niMAGain=" + gma,
               "snsMnMaXaDw=%d,%d,%d,%d" % (mn, ma, xa, dw), "nSavedChans=%d" % (mn + ma + xa + dw),
@@ -590,6 +614,70 @@ def gen_malformed(rng):
     return assemble(rng, L, plain=True), "probe"
 
 
+def rand_double(rng):
+    """a finite non-negative double with (usually) 16-17 significant digits"""
+    r = rng.random()
+    if r < 0.25:
+        return float(rng.randrange(0, 10 ** rng.choice([1, 3, 9, 15, 16, 17, 19, 22])))      # integer-valued
+    if r < 0.35:
+        return rng.choice([0.0, 0.1, 0.2 + 0.1, 1 / 3, 2 / 3, 1e-4, 1e-5, 5e-324, 2.2250738585072014e-308, 1e15, 1e16,
+                           9007199254740993.0, 0.1 + 0.7, 824.4640643928594, 30000.390639481, 1.7976931348623157e308])
+    return rng.random() * 10.0 ** rng.randrange(-30, 25)
+
+
+def gen_direct(rng):
+    """a Python dictionary handed to write_meta_data directly (not obtained from a read)"""
+    d = {}
+    for _ in range(rng.choice([1, 2, 3, 5, 8])):
+        k = gen_key(rng).replace("~", "")
+        if k in ("imProbeSN", "imDatPrb_sn", "neuropixelVersion", "serial"):
+            k = "k" + k
+        r = rng.random()
+        if r < 0.3:
+            d[k] = gen_string(rng)
+        elif r < 0.8:
+            d[k] = rand_double(rng)
+        else:
+            d[k] = [float(rng.randrange(0, 10 ** rng.choice([1, 3, 9, 16]))) for _ in range(rng.choice([2, 3, 5]))]
+    return d
+
+
+def check_direct(ctx, n):
+    """write_meta_data on arbitrary dictionaries of strings / doubles / integer-valued lists, then
+    read_meta_data (C09_float_dict_roundtrip); and the two float facts that theorem assumes"""
+    import spikeglx
+    rng = ctx.rng
+    tmp = common.tmpdir("C09_direct_")
+    done = 0
+    try:
+        for i in range(n):
+            d = gen_direct(rng)
+            p = tmp / "d.meta"
+            try:
+                spikeglx.write_meta_data(d, p if i % 2 else str(p))
+                back = spikeglx.read_meta_data(str(p) if i % 2 else p)
+            except ERRS as e:
+                ctx.fail("write/read of a dictionary raised %s" % type(e).__name__, {"cls": "direct", "dict": d},
+                         {"kind": "direct_exception"})
+                continue
+            got = {k: v for k, v in back.items() if k not in ("neuropixelVersion", "serial")}
+            if got != d or list(got) != list(d):
+                bad = [k for k in d if got.get(k) != d[k]]
+                ctx.fail("read(write(d)) != d at key(s) %r" % bad[:3], {"cls": "direct", "dict": d},
+                         {"kind": "direct_roundtrip"})
+            done += 1
+        for i in range(4 * n):
+            x = rand_double(rng)
+            s = np.format_float_positional(x, trim="-")
+            okform = re.fullmatch(r"[0-9]+(\.[0-9]*[1-9])?", s) is not None
+            if not okform or float(s) != x or (x.is_integer() and float(str(int(x))) != x):
+                ctx.fail("float hypothesis of C09_float_*_roundtrip fails for %r (printed %r)" % (x, s),
+                         {"cls": "hypothesis", "x": x}, {"kind": "repr_hypothesis"})
+    finally:
+        shutil.rmtree(tmp, ignore_errors=True)
+    return done
+
+
 # ----------------------------------------------------------------------------- oracles
 def oracle_grammar(obs, exp):
     """round trip and parse on a file over the grammar (implementation only)"""
@@ -607,6 +695,19 @@ def oracle_grammar(obs, exp):
         bad.append(("tilde left in a key", "tilde"))
     if not obs["reread_ok"] or not obs["reread_pyeq"]:
         bad.append(("read(write(read f)) != read f", "roundtrip"))
+    bad += oracle_seq(obs, True)
+    return bad
+
+
+def oracle_seq(obs, in_grammar):
+    """str vs Path arguments; write / read / write / read on one path that held a longer file"""
+    s = obs["seq"]
+    bad = []
+    if not s["read_str_eq_path"] or not s["write_str_eq_path"]:
+        bad.append(("str and Path arguments give different results, or a longer previous file is not truncated",
+                    "path_str"))
+    if in_grammar and obs["reread_pyeq"] and not (s["rewrite_identical"] and s["final_eq"]):
+        bad.append(("write / read / write / read on the same path is not stable", "sequence"))
     return bad
 
 
@@ -617,6 +718,7 @@ def oracle_probe(obs, it):
         return [("read_meta_data raised %s on a well-formed probe file" % obs["read_exc"], "read_exception")]
     if not obs["reread_pyeq"]:
         bad.append(("read(write(read f)) != read f", "roundtrip"))
+    bad += oracle_seq(obs, True)
 
     def val(name):
         ok, v = obs[name]
@@ -627,6 +729,12 @@ def oracle_probe(obs, it):
     md = obs["md"]
     if md.get("neuropixelVersion") != it["version"] or val("version") != it["version"] or val("r_version") != it["version"]:
         bad.append(("probe generation %r, expected %r" % (obs["version"], it["version"]), "version"))
+    want_major = {"3A": 1, "3B1": 1, "3B2": 1, "NP2.1": 2, "NP2.4": 2.4, "NPultra": "NPultra", "nidq": None}[it["kind"]]
+    if val("major") != want_major:
+        bad.append(("major version %r, expected %r" % (obs["major"], want_major), "major"))
+    asy = val("async")
+    if asy is not None and list(asy) != it.get("analog_sync", []):
+        bad.append(("analog sync trace indices %r, expected %r" % (asy, it.get("analog_sync", [])), "analog_sync"))
     if it["kind"] != "nidq" and md.get("serial") != it["serial"]:
         bad.append(("serial %r" % (md.get("serial"),), "serial"))
     if val("type") != it["type"] or val("r_type") != it["type"]:
@@ -764,10 +872,15 @@ def run(ctx):
             if c.get("full"):
                 dist["full_reader"] += check_full_reader(obs, ctx, desc)
             nontrivial.add(c["text"])
+        if c["cls"] == "malformed" and obs["read_ok"]:
+            for what, kind in oracle_seq(obs, False):
+                ctx.fail(what, desc, {"kind": kind, "cls": c["cls"]})
         if not obs["read_ok"]:
             dist["read_raises"] += 1
         elif not obs["s2v"][0]:
             dist["s2v_raises"] += 1
+    dist["direct_dictionaries"] = check_direct(ctx, 3000 if ctx.thorough() else 300)
+    dist["float_hypothesis_samples"] = 4 * (3000 if ctx.thorough() else 300)
     # ---- correspondence with the Coq model (every class except the 16-17 digit scalars)
     sel = [c for c in cases if c["obs"] is not None and c["cls"] != "bigdigits"]
     inputs = [[ord(ch) for ch in c["text"]] for c in sel]
@@ -801,7 +914,7 @@ def run(ctx):
              "only. Each text goes through the real read_meta_data, write_meta_data, read_meta_data again, the "
              "_get_*_from_meta functions, _conversion_sample2v_from_meta and the Reader properties, and through the Coq "
              "model; non-trivial = a grammar file with more than one parsed entry or any probe file; distinct by text",
-        samples=samples, evaluations=len([c for c in cases if c["obs"] is not None]),
+        samples=samples, evaluations=len([c for c in cases if c["obs"] is not None]) + dist["direct_dictionaries"],
         distinct_nontrivial=len(nontrivial),
         extra={"input_distribution": dist, "exhaustive": False},
         assumptions=["literals of at most 15 significant digits denote distinct doubles that print back as themselves",
@@ -813,6 +926,27 @@ def replay(ctx, data):
     if not inp:
         print(json.dumps(data, indent=1)[:3000])
         return 1
+    if inp.get("cls") == "direct":
+        import spikeglx
+        tmp = common.tmpdir("C09_replay_")
+        try:
+            spikeglx.write_meta_data(inp["dict"], tmp / "d.meta")
+            print("written:", repr((tmp / "d.meta").read_text()[:600]))
+            back = spikeglx.read_meta_data(tmp / "d.meta")
+        except Exception as e:
+            print("raised", repr(e))
+            return 1
+        finally:
+            shutil.rmtree(tmp, ignore_errors=True)
+        got = {k: v for k, v in back.items() if k not in ("neuropixelVersion", "serial")}
+        print("dictionary:", inp["dict"])
+        print("read back :", got)
+        return 1 if got != inp["dict"] else 0
+    if inp.get("cls") == "hypothesis":
+        x = float(inp["x"])
+        s = np.format_float_positional(x, trim="-")
+        print(repr(x), "printed", s, "re-read", float(s))
+        return 1 if float(s) != x else 0
     c = {"cls": inp["cls"], "text": inp["text"]}
     tmp = common.tmpdir("C09_replay_")
     try:
